@@ -86,6 +86,13 @@ def shapes(tier='quick'):
                           [(0, P), (1, P), (1, R), (0, R)], prov=prov, req=req, fac=fac,
                           prefix=None if fac == 'CREATE' else ['X'])
         shape('mc-three-ports-mc-last', [I_io, I_rich, I_claim], [(0, P), (1, P), (2, P)], mc=2)
+        # larger structures than the quick corpus: the composition is only sampled, so the thorough tier samples wider
+        shape('four-provides-four-requires', [I_io, I_rich, I_outonly, I_inonly],
+              [(0, P), (1, P), (2, P), (3, P), (3, R), (2, R), (1, R), (0, R)], req=('SET01', 'REMAINING'))
+        shape('five-requires-sts', [I_rich], [(0, R), (0, R), (0, R), (0, R), (0, R)], req=('ALL', 'NONE'), fac='IMPORT')
+        shape('deep-namespaces', [I_rich, I_io], [(0, P), (1, R)], comp_ns=('A', 'B', 'C'), itf_ns=[('A',), ('A', 'B')])
+        shape('mc-among-four-provides', [I_io, I_claim, I_rich, I_inonly], [(0, P), (1, P), (2, P), (3, P), (0, R)], mc=1,
+              prefix=['Sup', 'Port'])
     return S
 
 
